@@ -4,6 +4,7 @@ Spec: specs/ModelGeom.tla (part "C12").  TLC checks OneOutput (five representati
 the exact derivative of the parameter-to-parameter map, 5-point stencil exact for the polynomial instance) and Rename on
 the intended design, the named deviations must violate them, and the exact expected outputs / gradients / refusal table
 are replayed into real cuqi.model.Model / LinearModel / PDEModel objects with real geometries.
+Sequences of public operations on ONE model object: specs/ModelGeomSeq12.tla (EXTENDS ModelGeom), replayed by cuqiverif/c12_seq.py.
 """
 META = {
     "claimed": True,
@@ -17,7 +18,11 @@ META = {
              "Every case is replayed: par ndarray, fun ndarray (is_par=False), CUQIarray par/fun, Samples of parameters and of function values; value, wrapper type, flag and "
              "geometry of the output; gradient for direction/wrt as par, fun, CUQIarray against the exact value or the refusal; model(dist) for "
              "each distribution geometry: name, geometries (object / class / shapes / par2fun), forward values on every representation, "
-             "gradient, original untouched."),
+             "gradient, original untouched. "
+             "Sequences on ONE model object (ModelGeomSeq12.tla, EXTENDS ModelGeom): every behaviour of 3 (thorough: also 4) actions out of forward on "
+             "each representation, gradient, assignment of domain_geometry / range_geometry, model(dist) and use of the renamed copies is "
+             "replayed on one real object - every answer must be the one of a freshly built model with the configuration the object has at "
+             "that moment, the copies keep name and behaviour, the caller's inputs stay bit-identical; 2 more named deviations must violate."),
     "note": ("Bounded sizes (domain function dimension 6, range 4); one argument models only (the pinned version supports one input). "
              "KLExpansion realised numerically from the original geometry object. Exact class of the output for plain ndarray input and "
              "exception types are observations, not asserted."),
@@ -413,6 +418,9 @@ def run(ctx):
                 "gradient representation combo | samples | rename)")
     ctx.exhaustive = True
     ctx.traces = len(cases)
+    # sequences of public operations on ONE model object (ModelGeomSeq12.tla)
+    from cuqiverif import c12_seq
+    ctx.traces += c12_seq.run_seq12(ctx)
     ctx.assumptions += ["function dimensions 6 (domain) and 4 (range); single-input models",
                         "KLExpansion realised numerically: its maps are read off the original geometry object",
                         "floating comparison rtol=atol=1e-10"]
@@ -423,5 +431,8 @@ def replay(ctx, case):
         return run(ctx)
     if case.get("kind") == "c12":
         return check_case(ctx, case)
+    if case.get("kind") == "seq12":
+        from cuqiverif import c12_seq
+        return c12_seq.check_seq12_case(ctx, case)
     from cuqiverif.core import MachineryError
     raise MachineryError("unknown replay case kind %r" % case.get("kind"))
